@@ -12,7 +12,7 @@ for d in sorted((V / 'seeded').iterdir()):
     log = (d / 'verify.log').read_text().strip().splitlines()[-1] if (d / 'verify.log').exists() else 'not yet re-verified'
     rows.append((d.name, m.get('property', '?'), m.get('summary', '').replace('\n', ' ').replace('|', '/')[:230],
                  str(m.get('needs_to_manifest', '')).replace('\n', ' ').replace('|', '/')[:230],
-                 v.get('status', '?'), v.get('result', '').replace('|', '/'), log.split(': ', 1)[-1]))
+                 v.get('status', '?'), (v.get('result') or v.get('check', '')).replace('|', '/'), log.split(': ', 1)[-1]))
 out = ['# Seeded changes and the checks that catch them', '',
        'Each directory holds one change produced by an independent sub-agent that saw only the property text:',
        '`patch.diff` (apply with `git -C /repo apply`), `demo.py` (passes on the clean tree, fails with the patch),',
@@ -20,7 +20,7 @@ out = ['# Seeded changes and the checks that catch them', '',
        '(`tools/verify_seed.sh`: patch applies, suite failing set unchanged, demo clean/patched).',
        'To replay: `tools/run_seed.sh <Cxx> seeded/<dir>` (scratch worktree + `VERIF_REPO`), or apply to /repo, run',
        '`./check <Cxx> --tier quick`, and `git -C /repo checkout -- .`.', '',
-       f'{len(rows)} seeded changes; ' + str(sum(1 for r in rows if r[4].startswith("caught from"))) + ' caught from the start, ' +
+       f'{len(rows)} seeded changes; ' + str(sum(1 for r in rows if (r[4].startswith("caught from") or r[4].startswith("caught-first")))) + ' caught from the start, ' +
        str(sum(1 for r in rows if "after" in r[4] or "strengthen" in r[4])) + ' caught after strengthening.', '',
        '| seed | change | needs to manifest | status | how it is caught | suite/demo verification |', '|---|---|---|---|---|---|']
 for r in rows:
